@@ -175,8 +175,12 @@ class GarbageCollector:
 
         try:
             markers = self.storage.list_files(INFLIGHT_PATH)
-        except Exception:
-            markers = []
+        except Exception as e:
+            # Unknown markers = unknown protection: deleting now could remove
+            # the files of a transaction in flight (fail closed).
+            raise GarbageCollectionAborted(
+                f"Aborting GC: cannot list in-flight markers under {INFLIGHT_PATH}: {e}"
+            ) from e
 
         for marker_path in markers:
             norm_marker = self._normalize_path(marker_path)
@@ -217,7 +221,16 @@ class GarbageCollector:
         """
         fallback = f"data/{basename[: -len('.inflight')]}"
         try:
-            payload = json.loads(self.storage.read_file(marker_path).decode("utf-8"))
+            raw = self.storage.read_file(marker_path)
+        except FileNotFoundError:
+            return fallback  # marker removed meanwhile: its transaction finished
+        except Exception as e:
+            # Which file the marker protects is unknown (fail closed).
+            raise GarbageCollectionAborted(
+                f"Aborting GC: cannot read in-flight marker {marker_path}: {e}"
+            ) from e
+        try:
+            payload = json.loads(raw.decode("utf-8"))
             target = payload.get("file_path")
         except Exception:
             return fallback
